@@ -79,16 +79,48 @@ Fixpoint mism_from (i : nat) (s : state) (prev : dump) (first : verdict) (evs : 
   | _, _, _ => match first with VOk => VMismatch i "malformed case" | _ => first end
   end.
 
-Fixpoint viol_from (i : nat) (cfg : config) (t0 : Z) (m : mon) (pre : dump) (evs : list (event * list (nat * wref)))
-    (obss : list (list obs)) (dumps : list ddelta) : verdict :=
+(* The monitor keeps running after a violation: the verdict lists, for every
+   property (the first three characters of a kind), the first violation of
+   that property as "kind@step", separated by ";" (several properties are
+   decided from one scheduler run). *)
+Fixpoint nat_to_string_aux (fuel n : nat) (acc : string) : string :=
+  match fuel with
+  | O => acc
+  | S f =>
+    let d := String (Ascii.ascii_of_nat (48 + Nat.modulo n 10)) EmptyString in
+    match Nat.div n 10 with
+    | O => (d ++ acc)%string
+    | q => nat_to_string_aux f q (d ++ acc)%string
+    end
+  end.
+Definition nat_to_string (n : nat) : string := nat_to_string_aux (S n) n "".
+
+Definition prop_of (kind : string) : string := substring 0 3 kind.
+
+Fixpoint viol_collect (i : nat) (cfg : config) (t0 : Z) (m : mon) (pre : dump) (seen : list string)
+    (acc : list (nat * string)) (evs : list (event * list (nat * wref)))
+    (obss : list (list obs)) (dumps : list ddelta) : list (nat * string) :=
   match evs, obss, dumps with
   | e :: evs', o :: obss', dl :: dumps' =>
     let d := apply_delta pre dl in
-    match p_step cfg t0 m pre (fst e) o d with
-    | (m', EmptyString) => viol_from (S i) cfg t0 m' d evs' obss' dumps'
-    | (_, kind) => VViolation i kind
+    let '(m', kind) := p_step cfg t0 m pre (fst e) o d in
+    match kind with
+    | EmptyString => viol_collect (S i) cfg t0 m' d seen acc evs' obss' dumps'
+    | _ =>
+      if existsb (String.eqb (prop_of kind)) seen
+      then viol_collect (S i) cfg t0 m' d seen acc evs' obss' dumps'
+      else viol_collect (S i) cfg t0 m' d (prop_of kind :: seen) (acc ++ [(i, kind)]) evs' obss' dumps'
     end
-  | _, _, _ => VOk
+  | _, _, _ => acc
+  end.
+
+Definition viol_from (i : nat) (cfg : config) (t0 : Z) (m : mon) (pre : dump) (evs : list (event * list (nat * wref)))
+    (obss : list (list obs)) (dumps : list ddelta) : verdict :=
+  match viol_collect i cfg t0 m pre [] [] evs obss dumps with
+  | [] => VOk
+  | (st, k) :: tl =>
+    VViolation st (fold_left (fun s '(st', k') => (s ++ ";" ++ k' ++ "@" ++ nat_to_string st')%string) tl
+                             (k ++ "@" ++ nat_to_string st)%string)
   end.
 
 Definition empty_dump : dump := mkDump 0 [] [] [] 0 [].
